@@ -92,6 +92,36 @@ def check(rng, deep):
                 # 'No convergence' raise is the correct outcome there -- "failure to converge raises rather than returning"; the base calibrations must converge
                 if rep == 0 or 'No convergence' not in str(ex):
                     raise
+    # comparative statics from a previous RESULT: re-solving from a copy of a solved steady state must leave the first result the steady state it was (aggregates = D-weighted sums of ITS OWN policies)
+    n += 1
+    try:
+        from sequence_jacobian import create_model
+        from sequence_jacobian.examples import krusell_smith as ks
+        kmodel = create_model([ks.hh.add_hetinputs([ks.income, ks.make_grids]), ks.firm_ss, ks.mkt_clearing], name='ks_ss')
+    except Exception:
+        kmodel = None
+    if kmodel is not None:
+        kcal = {'eis': 1.0, 'delta': 0.025, 'alpha': 0.11, 'rho': 0.966, 'sigma': 0.5, 'Y': 1.0, 'L': 1.0, 'nS': 3, 'nA': 40, 'amax': 200, 'r': 0.01}
+        inp = dict(kind='resolve-from-result', model='krusell_smith', first=dict(r=0.01), second=dict(r=0.02))
+        try:
+            s1 = kmodel.solve_steady_state(kcal, {'beta': (0.98 / 1.01, 0.999 / 1.01)}, {'asset_mkt': 0.}, solver='brentq')
+            D1, a1 = s1.internals['hh']['D'].copy(), s1.internals['hh']['a'].copy()
+            c2 = s1.copy()
+            c2['r'] = 0.02
+            s2 = kmodel.solve_steady_state(c2, {'beta': (0.95 / 1.02, 0.999 / 1.02)}, {'asset_mkt': 0.}, solver='brentq')
+            bad = []
+            if not (np.array_equal(s1.internals['hh']['D'], D1) and np.array_equal(s1.internals['hh']['a'], a1)):
+                bad.append('the first result now carries another distribution / policy')
+            for lab, s_ in (('first', s1), ('second', s2)):
+                h_ = s_.internals['hh']
+                if abs(s_['A'] - np.vdot(h_['D'], h_['a'])) > 1e-9 * max(1, abs(s_['A'])):
+                    bad.append(f'{lab} result: A = {float(s_["A"]):.6f} but sum(D * a) = {float(np.vdot(h_["D"], h_["a"])):.6f}')
+                if abs(s_['asset_mkt']) > 1e-8:
+                    bad.append(f'{lab} result misses its target')
+            if bad:
+                C.push(out, dict(what='re-solving from a copy of a solved steady state changed the first result (it is no longer the steady state it reported)', input=inp, observed=bad[:4], signature=dict(op='resolve-from-result')))
+        except Exception as ex:
+            C.push(out, dict(what=f're-solving the Krusell-Smith steady state from a previous result raised {type(ex).__name__}: {ex}', input=inp, signature=dict(op='raise', where='resolve-from-result')))
     # probe of known finding D27 (every tier): the shipped extended household at a patient calibration whose savers leave the 80-unit grid at the top
     n += 1
     check_het('sim_shipped', m.sim_shipped, dict(m.SIM_SHIPPED_CALIB, r=0.002500153769169685, beta=0.994638531337915), out)
